@@ -77,7 +77,9 @@ class Obj:
             o.set_frame_len_in_header()
         elif a == "flag":
             from spacepackets.cfdp.defs import LargeFileFlag
-            o.file_flag = LargeFileFlag(ev["x"])
+            # the enum member, or (ev.raw) the plain integer an application read from elsewhere - IntEnum values compare
+            # equal to ints and the library accepts them
+            o.file_flag = int(ev["x"]) if ev.get("raw") else LargeFileFlag(ev["x"])
         elif a == "reload":
             raw = bytes(self.pack())
             if k == "tc":
@@ -100,9 +102,9 @@ class Obj:
             elif f == "seq":
                 o.seq_count = x
             elif k == "tc":
-                o.app_data = bytes(x)
+                o.app_data = bytearray(x) if len(x) % 2 else bytes(x)      # callers also keep data in bytearrays
             elif k == "tm":
-                o.tm_data = bytes(x)
+                o.tm_data = bytearray(x) if len(x) % 2 else bytes(x)
             elif k == "uslp":
                 o.tfdf.tfdz = bytes(x)
             elif f == "fault":
@@ -356,14 +358,14 @@ def rnd_event(rng, kind):
         return {"a": "set", "f": "srcname" if c == 1 else "dstname", "x": list(rng.choice(NAMES).encode())}
     if kind == "nak":
         if rng.random() < 0.4:
-            return {"a": "flag", "x": rng.randrange(2)}
+            return {"a": "flag", "x": rng.randrange(2), **({"raw": 1} if rng.random() < 0.4 else {})}
         return {"a": "set", "f": "segs", "x": [[rb(rng, 4), rb(rng, 4)] for _ in range(rng.choice([0, 1, 2, 4]))]}
     if kind == "filedata":
         if rng.random() < 0.5:
             return {"a": "set", "f": "data", "x": rb(rng, rng.choice([0, 1, 2, 17, 300]))}
         return {"a": "set", "f": "meta", "x": [] if rng.random() < 0.4 else [{"state": rng.randrange(4), "md": rb(rng, rng.choice([0, 1, 7, 63]))}]}
     if kind == "keepalive":
-        return {"a": "flag", "x": rng.randrange(2)}
+        return {"a": "flag", "x": rng.randrange(2), **({"raw": 1} if rng.random() < 0.4 else {})}
     raise ValueError(kind)
 
 
